@@ -121,7 +121,13 @@ class C05(Prop):
             import numpy as np
             from model_diagnostics.scoring import ElementaryScore
 
-            sf = ElementaryScore(eta=float(Fraction(case["eta"])), functional=case["elem_f"], level=case["level"])
+            if len(ys) % 2 == 0:
+                # one scorer moved along a threshold grid: constructed at another eta, the public attribute re-assigned
+                sf = ElementaryScore(eta=float(Fraction(case["eta"])) + 1.5, functional=case["elem_f"], level=case["level"])
+                sf(np.array(ys), np.full(len(ys), grid[0]))
+                sf.eta = float(Fraction(case["eta"]))
+            else:
+                sf = ElementaryScore(eta=float(Fraction(case["eta"])), functional=case["elem_f"], level=case["level"])
             for g in grid:
                 out["m"].append(float(sf(np.array(ys), np.full(len(ys), g), None if ws is None else np.array(ws))))
             return out
